@@ -147,12 +147,19 @@ def _builders():
 
 
 _B = None
+# static copy of the configuration keys: gen_cases runs in the parent before the worker initialisation and must not import torchjd
+CONFIG_KEYS = ["UPGrad", "UPGrad[inc]", "UPGrad[ne=1e-13]", "DualProj", "DualProj[tiny]", "DualProj[ne=1e-13]", "MGDA", "PCGrad", "IMTLG",
+               "AlignedMTL", "AlignedMTL[inc]", "ConFIG", "ConFIG[inc]", "Constant", "GradDrop", "GradDrop[leak]", "Krum(0,1)", "Krum(0,2)",
+               "Krum(1,2)", "Mean", "Random", "Sum", "TrimmedMean(0)", "TrimmedMean(1)", "TrimmedMean(2)", "CAGrad(0.5)",
+               "CAGrad(0.5)[ne=1e-13]", "CAGrad(0)", "CAGrad(2)"]
 
 
 def builders():
     global _B
     if _B is None:
         _B = _builders()
+        if list(_B) != CONFIG_KEYS:
+            raise HarnessError("CONFIG_KEYS out of date")
     return _B
 
 
@@ -205,7 +212,7 @@ def gen_cases(tier, seed):
         cases.append(dict(kind="hist", key=key, alph="any", seed=seed))
     for key in HIST_KEYS_M3:
         cases.append(dict(kind="hist", key=key, alph="m3", seed=seed))
-    for key in builders():
+    for key in CONFIG_KEYS:
         cases.append(dict(kind="reject", key=key, seed=seed))
     for key in SEEDED:
         for src in ("ternary32", "ternary23", "dense43", "dense53"):
@@ -221,7 +228,7 @@ def gen_cases(tier, seed):
         else:
             for lo, hi in _blocks(len(_canon(m, n)), 3):
                 cases.append(dict(kind="scale", src="canonical", m=m, n=n, lo=lo, hi=hi, group="cagrad", seed=seed))
-    for (m, n) in small:  # further CAGrad parameters on the small shapes
+    for (m, n) in small if tier == "thorough" else []:  # further CAGrad parameters on the small shapes
         for lo, hi in _blocks(A.ternary_count(m, n), 6):
             cases.append(dict(kind="scale", src="ternary", m=m, n=n, lo=lo, hi=hi, group="cagrad-extra", seed=seed))
     for (m, n) in DENSE_SHAPES:
